@@ -635,7 +635,11 @@ class CompoundInterval(Location):
             raise InvalidPositionException("Relative end must be within the size of the interval")
         # if start == end, then just return a simple interval
         elif relative_start == relative_end:
-            start_on_parent = self.relative_to_parent_pos(relative_start)
+            if relative_start == len(self):
+                # zero-length interval at the 3' end of this location
+                start_on_parent = self.end if self.strand == Strand.PLUS else self.start
+            else:
+                start_on_parent = self.relative_to_parent_pos(relative_start)
             return SingleInterval(
                 start_on_parent,
                 start_on_parent,
